@@ -26,6 +26,14 @@ macro_rules! props {
             }
         }
         pub fn replay(id: &str, section: &str, case: &Value, ctx: &mut Ctx) {
+            // inputs found by the coverage-guided targets are replayed through the same entry point
+            if section == "fuzz" {
+                let data = super::pkt::unhex(case["bytes"].as_str().unwrap_or(""));
+                for v in super::fuzz::fuzz_one(&id.to_lowercase(), &data) {
+                    ctx.report(v);
+                }
+                return;
+            }
             match id {
                 $($id => $m::replay(section, case, ctx),)*
                 _ => ctx.infra(format!("no such property {}", id)),
